@@ -285,6 +285,17 @@ func (c *countCtx) Err() error {
 	return nil
 }
 
+// memLib is a one-directory in-memory source library.
+type memLib map[string]string
+
+func (m memLib) LoadSource(ctx lisp.SourceContext, loc string) (string, string, []byte, error) {
+	src, ok := m[loc]
+	if !ok {
+		return "", "", nil, fmt.Errorf("no such file: %s", loc)
+	}
+	return loc, loc, []byte(src), nil
+}
+
 type Cancel struct {
 	P    gen.Program `json:"p"`
 	Pick []uint16    `json:"pick"`
@@ -299,7 +310,7 @@ func genCancel() *rapid.Generator[Cancel] {
 		return Cancel{
 			P:    gen.GenProgramWith(gen.ProgOpts{MaxForms: 3, Budget: 40, Depth: 5, Extra: true}).Draw(t, "p"),
 			Pick:   rapid.SliceOfN(rapid.Uint16(), 32, 32).Draw(t, "pick"),
-			Nested: rapid.SampledFrom([]string{"", "", "load-string", "load-bytes"}).Draw(t, "nested"),
+			Nested: rapid.SampledFrom([]string{"", "", "load-string", "load-bytes", "load-file", "host-load-file"}).Draw(t, "nested"),
 		}
 	})
 }
@@ -314,11 +325,25 @@ func checkCancel(cs Cancel, c *vcommon.Ctx) *vcommon.Failure {
 	case "load-bytes":
 		src = "(defun run-nested () (let ((k 1)) (load-bytes (to-bytes " + strconv.Quote(src) + "))))\n(list (run-nested))\n"
 		c.Class("nested/load-bytes")
+	case "load-file":
+		// the program is a FILE of the source library, loaded from inside a function
+		src = "(defun run-nested () (list 1) (load-file \"prog.lisp\"))\n(run-nested)\n"
+		c.Class("nested/load-file")
+	case "host-load-file":
+		// ... or by the host, through the LoadFileContext entry point
+		c.Class("nested/host-load-file")
+	}
+	lib := memLib{"prog.lisp": direct}
+	load := func(rt *vcommon.Rt, ctx context.Context) *lisp.LVal {
+		if cs.Nested == "host-load-file" {
+			return rt.Env.LoadFileContext(ctx, "prog.lisp")
+		}
+		return rt.Env.LoadStringContext(ctx, "test.lisp", src)
 	}
 	// baseline: a context that never cancels (so steps are counted the same way)
 	never := &countCtx{after: 1 << 60}
-	rt0 := vcommon.NewRuntime(vcommon.Cfg{NoStdlib: true, MaxPhysical: 5000, MaxAlloc: 200000})
-	out0 := rt0.Observe(rt0.Env.LoadStringContext(never, "test.lisp", src))
+	rt0 := vcommon.NewRuntime(vcommon.Cfg{NoStdlib: true, MaxPhysical: 5000, MaxAlloc: 200000, Library: lib})
+	out0 := rt0.Observe(load(rt0, never))
 	S := rt0.Env.Runtime.Steps()
 	if out0.IsErr && (strings.Contains(out0.Msg, "stack height exceeded") || out0.Cond == "eval-nesting-exceeded") || S > 100000 {
 		c.Class("skip/baseline-hit-other-limit")
@@ -346,17 +371,17 @@ func checkCancel(cs Cancel, c *vcommon.Ctx) *vcommon.Failure {
 	}
 	for _, n := range budgets(S, cs.Pick) {
 		ctx := &countCtx{after: n - 1} // the n-th poll reports cancellation
-		rt := vcommon.NewRuntime(vcommon.Cfg{NoStdlib: true, MaxPhysical: 5000, MaxAlloc: 200000})
-		out := rt.Observe(rt.Env.LoadStringContext(ctx, "test.lisp", src))
+		rt := vcommon.NewRuntime(vcommon.Cfg{NoStdlib: true, MaxPhysical: 5000, MaxAlloc: 200000, Library: lib})
+		out := rt.Observe(load(rt, ctx))
 		if out.Panic {
 			return vcommon.Failf("internal-panic", "internal panic when cancelled at poll %d: %s\n%s", n, out.Msg, src)
 		}
 		// every effect strictly before the cancelling step happened, nothing after
-		if d := truncation(rt.Trace, rt0.Trace, n-1, swallows(src), own); d != "" {
+		if d := truncation(rt.Trace, rt0.Trace, n-1, swallows(src+direct), own); d != "" {
 			return vcommon.Failf("cancel/trace-not-prefix", "cancelled at step %d of %d: %s\n%s", n, S, d, src)
 		}
 		if n <= S {
-			if !(out.IsErr && out.Cond == "context-cancelled") && !swallows(src) {
+			if !(out.IsErr && out.Cond == "context-cancelled") && !swallows(src+direct) {
 				return vcommon.Failf("cancel/not-stopped", "context cancelled at step %d of %d but the run ended with %s (%s)\n%s", n, S, outcome(out), out.Msg, src)
 			}
 		} else if outcome(out) != outcome(out0) {
@@ -905,6 +930,44 @@ func checkEP(c EPCase, ctx *vcommon.Ctx) *vcommon.Failure {
 	return nil
 }
 
+// ---------- builtins that loop on float arithmetic terminate ----------
+
+// Absorbed: (make-sequence start stop step) where adding step to start does not
+// change it (the step is below the spacing of floats at that magnitude).  Under
+// a step budget and an allocation limit the call must still come back -- with a
+// value or with an ordinary error.
+type Absorbed struct {
+	Start float64 `json:"start"`
+	Span  float64 `json:"span"`
+	Step  float64 `json:"step"`
+}
+
+var absorbedHung bool // a hung case leaks a goroutine that allocates: never run a second one
+
+func checkAbsorbed(a Absorbed, c *vcommon.Ctx) *vcommon.Failure {
+	src := fmt.Sprintf("(length (make-sequence %s (+ %s %s) %s))", gen.FloatLit(a.Start), gen.FloatLit(a.Start), gen.FloatLit(a.Span), gen.FloatLit(a.Step))
+	if absorbedHung {
+		return vcommon.Failf("budget/no-termination", "%s did not return (not re-run: an earlier hung case is still allocating)", src)
+	}
+	if a.Start+a.Step == a.Start {
+		c.Class("step-absorbed")
+		c.NonTrivial(src)
+	}
+	rt := vcommon.NewRuntime(vcommon.Cfg{MaxSteps: 1000, MaxAlloc: 1000, NoStdlib: true})
+	done := make(chan vcommon.Outcome, 1)
+	go func() { done <- rt.Load(src) }()
+	select {
+	case o := <-done:
+		if o.Panic {
+			return vcommon.Failf("internal-panic", "internal panic: %s\n%s", o.Msg, src)
+		}
+	case <-time.After(10 * time.Second):
+		absorbedHung = true
+		return vcommon.Failf("budget/no-termination", "%s did not return within 10s under a budget of 1000 steps and an allocation limit of 1000 elements", src)
+	}
+	return nil
+}
+
 func TestCheck(t *testing.T) {
 	vcommon.Main(t, "C04",
 		vcommon.S("budget", 2400, 50000, genBudget(), checkBudget),
@@ -915,6 +978,13 @@ func TestCheck(t *testing.T) {
 			return EmptyLoop{N: rapid.IntRange(2, 300).Draw(t, "n"), Budget: rapid.IntRange(1, 320).Draw(t, "budget"), Huge: rapid.IntRange(0, 19).Draw(t, "huge") == 0}
 		}), checkEmptyLoop),
 		vcommon.S("loop-budget", 4000, 100000, genLoopBudget(), checkLoopBudget),
+		vcommon.S("absorbed-step", 1600, 20000, rapid.Custom(func(t *rapid.T) Absorbed {
+			return Absorbed{
+				Start: rapid.SampledFrom([]float64{1e16, 1.7e18, -1e17, 9.1e15, 4e15, 1e300, 3, 0}).Draw(t, "start"),
+				Span:  rapid.SampledFrom([]float64{8, 1000, 2, 1e5, 0.5}).Draw(t, "span"),
+				Step:  rapid.SampledFrom([]float64{1, 100, 0.5, 0.001, 3, 1e-9}).Draw(t, "step"),
+			}
+		}), checkAbsorbed),
 		vcommon.S("sleep-cancel", 32, 200, rapid.Custom(func(t *rapid.T) Sleep {
 			return Sleep{CancelMs: rapid.IntRange(5, 120).Draw(t, "ms"), Kind: rapid.SampledFrom([]string{"", "timeout", "child"}).Draw(t, "kind")}
 		}), checkSleep),
